@@ -44,6 +44,7 @@ type Engine struct {
 	infoBusy           map[*ssa.Function]bool
 	summ               map[*ssa.Function]map[string][]summary
 	usesLCache         map[*ssa.Function]bool
+	rwCache            map[*ssa.Function]*heapSet
 	summHits, summMiss int
 	assume             []string
 	tagEntry           int  // R-TAGSTATE: entry value of inTag (0/1), -1 when not applicable
@@ -52,13 +53,16 @@ type Engine struct {
 
 // EngCfg configures one analysis.
 type EngCfg struct {
-	Rel       string          // package of the entry point (module relative)
-	Owners    map[string]bool // "pkg.Type" whose methods are analysed inline
-	ErrPath   string          // heap path of the lexer's own error field ("js.Lexer.err")
-	SkipWS    ByteSet         // bytes that Skip() may drop (html/xml); empty set = Skip forbidden
-	AllowSkip bool
-	NoTile    bool   // entry point that is not a token producer: R-TILE/Skip rules do not apply
-	Tag       string // label of the configuration (part of no key; for messages)
+	Rel        string          // package of the entry point (module relative)
+	Owners     map[string]bool // "pkg.Type" whose methods are analysed inline
+	ErrPath    string          // heap path of the lexer's own error field ("js.Lexer.err")
+	SkipWS     ByteSet         // bytes that Skip() may drop (html/xml); empty set = Skip forbidden
+	AllowSkip  bool
+	NoTile     bool            // entry point that is not a token producer: R-TILE/Skip rules do not apply
+	Only       string          // when set, only obligations of this rule are recorded
+	DynTargets []*ssa.Function // candidates for dynamic calls through a state stack
+	StrPaths   map[string]bool // string-typed heap fields tracked for emptiness (0 = "", 1 = non-empty)
+	Tag        string          // label of the configuration (part of no key; for messages)
 }
 
 type engOb struct {
@@ -84,7 +88,7 @@ type fnInfo struct {
 func NewEngine(r *core.Run, cfg EngCfg) *Engine {
 	e := &Engine{r: r, prog: r.Prog, cfg: cfg, obs: map[string]*engOb{}, finfo: map[*ssa.Function]*fnInfo{},
 		tables: map[*ssa.Global]*[256]bool{}, bmaps: map[*ssa.Global]map[int64]int64{}, smaps: map[*ssa.Global][]int64{},
-		atLike: map[*ssa.Function]int{}, infoBusy: map[*ssa.Function]bool{}, summ: map[*ssa.Function]map[string][]summary{}, usesLCache: map[*ssa.Function]bool{}, maxSteps: 4_000_000, loopsSeen: map[string]bool{}}
+		atLike: map[*ssa.Function]int{}, infoBusy: map[*ssa.Function]bool{}, summ: map[*ssa.Function]map[string][]summary{}, usesLCache: map[*ssa.Function]bool{}, rwCache: map[*ssa.Function]*heapSet{}, maxSteps: 4_000_000, loopsSeen: map[string]bool{}}
 	e.reach = sharedReach(r.Prog)
 	return e
 }
@@ -159,6 +163,9 @@ func (e *Engine) computeReach() {
 // obligations
 
 func (e *Engine) ob(rule, key string, pos token.Pos) *engOb {
+	if e.cfg.Only != "" && rule != e.cfg.Only {
+		return &engOb{rule: rule, key: key}
+	}
 	full := rule + "|" + key
 	o := e.obs[full]
 	if o == nil {
@@ -175,7 +182,7 @@ func (e *Engine) check(st *State, rule, key string, pos token.Pos, ok bool, deta
 	if ok {
 		return
 	}
-	if st.havoc {
+	if st.havoc && e.cfg.Only == "" {
 		o.undecided++
 		if o.detail == "" {
 			o.detail = "cursor state unknown after an opaque call: " + detail
@@ -345,12 +352,21 @@ func (e *Engine) info(fn *ssa.Function) *fnInfo {
 					}
 				}
 			}
+			// indices/bounds applied directly to a lexeme
+			isLexeme := func(v ssa.Value) bool {
+				c, ok := v.(*ssa.Call)
+				return ok && c.Call.StaticCallee() != nil && isInputRecv(c.Call.StaticCallee())
+			}
 			switch x := in.(type) {
 			case *ssa.Slice:
-				mark(x.Low, 0)
-				mark(x.High, 0)
+				if isLexeme(x.X) {
+					mark(x.Low, 0)
+					mark(x.High, 0)
+				}
 			case *ssa.IndexAddr:
-				mark(x.Index, 0)
+				if isLexeme(x.X) {
+					mark(x.Index, 0)
+				}
 			}
 		}
 	}
@@ -488,7 +504,11 @@ func (e *Engine) run(fn *ssa.Function, entry *State, args []AbsVal) []exitState 
 		if !fi.isHeader[b] {
 			// bounded disjunction: states that know different things about the next bytes stay apart
 			k2 := fmt.Sprintf("%s|%x|%x", key, s.byteAt(0), s.byteAt(1))
-			if _, ok := m[k2]; ok || slots[b][key] < disjunctCap {
+			dcap := disjunctCap
+			if e.cfg.Only != "" {
+				dcap = 1
+			}
+			if _, ok := m[k2]; ok || slots[b][key] < dcap {
 				if !ok {
 					slots[b][key]++
 				}
@@ -650,6 +670,25 @@ func isPlainInt(t types.Type) bool {
 	}
 	b, ok := t.Underlying().(*types.Basic)
 	return ok && b.Info()&types.IsInteger != 0
+}
+
+// atomBounds: known bounds of a symbolic length (a lexer/parser field that is not reassigned while they are used).
+func atomBounds(st *State, atom string) (int, int) {
+	lo, hi := 0, inf
+	if pz, known := st.heap["pos:"+atom].constInt(); known {
+		if pz == 1 {
+			lo = 1
+		} else {
+			hi = 0
+		}
+	}
+	if v, ok := st.heap["lo:"+atom].constInt(); ok && int(v) > lo {
+		lo = int(v)
+	}
+	if v, ok := st.heap["hi:"+atom].constInt(); ok && int(v) < hi {
+		hi = int(v)
+	}
+	return lo, hi
 }
 
 func (e *Engine) topResults(fn *ssa.Function) []AbsVal {
@@ -1061,6 +1100,9 @@ func (e *Engine) compute(fi *fnInfo, st *State, in ssa.Value) AbsVal {
 func (e *Engine) load(st *State, x *ssa.UnOp) AbsVal {
 	if path, ok := heapPath(x.X); ok {
 		if av, ok := st.heap[path]; ok {
+			if av.k == vInt && len(av.ints) > 1 {
+				av.atom = path // remember the origin: a branch on the loaded value refines the field too
+			}
 			return av
 		}
 		if _, isSlice := x.Type().Underlying().(*types.Slice); isSlice {
@@ -1122,7 +1164,24 @@ func (e *Engine) boolTable(g *ssa.Global) *[256]bool {
 func (e *Engine) store(st *State, in *ssa.Store) {
 	if path, ok := heapPath(in.Addr); ok {
 		v := e.eval(st, in.Val)
+		if _, isSlice := in.Val.Type().Underlying().(*types.Slice); isSlice {
+			a := "len(" + path + ")"
+			delete(st.heap, "pos:"+a)
+			delete(st.heap, "lo:"+a)
+			delete(st.heap, "hi:"+a)
+		}
 		switch {
+		case e.cfg.StrPaths[path]:
+			if c, ok := in.Val.(*ssa.Const); ok && c.Value != nil && c.Value.Kind() == constant.String {
+				if constant.StringVal(c.Value) == "" {
+					st.heap[path] = intVal(0)
+				} else {
+					st.heap[path] = intVal(1)
+				}
+			} else {
+				st.heap[path] = intVal(1) // formatted messages are non-empty
+			}
+			// a store that changes the length of a tracked stack invalidates facts about it
 		case v.k == vInt || v.k == vSlice:
 			st.heap[path] = v
 		default:
@@ -1376,17 +1435,12 @@ func (e *Engine) cmp(st *State, a, b AbsVal, op token.Token, xv, yv ssa.Value) A
 	case kOffset, vAtomLen, kHeapRef, kLenOf:
 		if bConst {
 			if a.k == vAtomLen {
-				if pz, known := st.heap["pos:"+a.atom].constInt(); known {
-					lo, hi := 1, inf
-					if pz == 0 {
-						lo, hi = 0, 0
-					}
-					switch cmpAll(lo, hi, op, int(kb)) {
-					case 1:
-						return boolVal(true)
-					case -1:
-						return boolVal(false)
-					}
+				lo, hi := atomBounds(st, a.atom)
+				switch cmpAll(lo, hi, op, int(kb)) {
+				case 1:
+					return boolVal(true)
+				case -1:
+					return boolVal(false)
 				}
 			}
 			return AbsVal{k: vCmp, cmpX: xv, cmpOp: opString(op), cmpK: kb}
